@@ -327,7 +327,32 @@ func runC14(c *Ctx) {
 				name = shortFuncName(f.Parent()) + "$closure"
 			}
 			_, okSite := allowed[name]
-			c.Check("C14.R2", in, "flagDeltaAllowed set only at the enumerated sites", okSite, "a new site arming deltas must establish that the client holds the base; "+name+" is not in the reviewed table")
+			if !okSite {
+				// a helper extracted from reviewed sites: every caller (transitively, two levels) is reviewed
+				var allReviewed func(fn *ssa.Function, depth int) bool
+				allReviewed = func(fn *ssa.Function, depth int) bool {
+					callers := w.Callers(fn)
+					if len(callers) == 0 || depth > 2 {
+						return false
+					}
+					for _, ci := range callers {
+						p := ci.Parent()
+						pn := shortFuncName(p)
+						if p.Parent() != nil {
+							pn = shortFuncName(p.Parent()) + "$closure"
+						}
+						if _, ok := allowed[pn]; ok {
+							continue
+						}
+						if !allReviewed(p, depth+1) {
+							return false
+						}
+					}
+					return true
+				}
+				okSite = allReviewed(f, 0)
+			}
+			c.Check("C14.R2", in, "flagDeltaAllowed set only at the enumerated sites", okSite, "a new site arming deltas must establish that the client holds the base; "+name+" is not in the reviewed table and neither are all of its callers")
 			if name == "Client.subscribeCmd" {
 				g1 := GuardedBy(in, func(g Guard) bool { return g.Pol && loadsField(g.Cond, "SubscribeResult", "Recovered") })
 				g2 := GuardedBy(in, func(g Guard) bool { return g.Pol && loadsField(g.Cond, "SubscribeResult", "Delta") })
@@ -339,7 +364,7 @@ func runC14(c *Ctx) {
 		})
 	}
 	// the shared-poll commit uses a constant containing the flag: count it
-	c.Anchor("C14.R2", "sites OR-ing flagDeltaAllowed", k >= 4)
+	c.Anchor("C14.R2", "sites OR-ing flagDeltaAllowed", k >= 2)
 
 	// ---- R3 keyed
 	kw := c.Fn("C14.R3", "centrifuge", "(*Client).keyedWritePublication")
